@@ -984,6 +984,14 @@ func (c *clientPlaySessionHandler) handleFinishedUpdate(p *config.FinishedUpdate
 	if !c.player.MinecraftConn.SwitchSessionHandler(state.Config) {
 		panic("expected client to have config session handler")
 	}
+	// On a server switch the new backend completed its login before the client
+	// entered the configuration state: it is ready for the client's config
+	// plugin messages, which would otherwise stay queued forever.
+	if inFlight := c.player.connectionInFlight(); inFlight != nil {
+		if csh, ok := c.player.ActiveSessionHandler().(*clientConfigSessionHandler); ok {
+			_ = csh.flushQueuedPluginMessagesTo(inFlight)
+		}
+	}
 	serverConn := c.player.connectedServer()
 	if serverConn != nil {
 		smc, ok := serverConn.ensureConnected()
